@@ -5,7 +5,7 @@
    rate over the first x ns (Model/Sched.v, written from docs/eng/load-profile.md);
    [count], [at_], [dur] are the formulas of const.go/line.go/do_at.go in exact arithmetic. *)
 From Coq Require Import ZArith QArith Qround List Bool.
-From PV Require Import Model.Sched Proofs.SchedArith Proofs.SchedQ Proofs.SchedProofs.
+From PV Require Import Model.Sched Proofs.SchedArith Proofs.SchedQ Proofs.SchedProofs Proofs.SchedStep.
 Import ListNotations.
 Local Open Scope Z_scope.
 
@@ -67,6 +67,33 @@ Proof.
 Qed.
 Print Assumptions C01_finish.
 
+(* A step profile is the succession of one const profile per rate level: the loop of NewStep
+   yields (never running out of fuel) the levels from, from+st, ... while <= to; the drained
+   composite is, level after level, the tokens of const(level_j, D) shifted by j*D; it finishes
+   at levels*D; Left() is the sum of the levels' counts; every level is a valid const profile,
+   so C01_count / C01_at_bracket / C01_range apply to each of them. *)
+Theorem C01_step : forall f t st D, valid (PStep f t st D) ->
+  let lv := spec_levels f t st in
+  (exists d, drain (PStep f t st D) = Some d /\
+     d_tokens d = flat_map (level_tokens D 0) (combine (seq 0 (length lv)) lv) /\
+     d_finish d = Z.of_nat (length lv) * D /\
+     d_left d = fold_right Z.add 0 (map (fun r => count (PConst r D)) lv) /\
+     Forall (fun r => valid (PConst r D)) lv) /\
+  (forall j r, nth_error lv j = Some r -> r = level f st j /\ (r <= t)%Q) /\
+  ((f <= t)%Q -> ~ (level f st (length lv) <= t)%Q) /\
+  (~ (f <= t)%Q -> lv = []).
+Proof.
+  intros f t st D Hv. split; [apply step_drain; exact Hv|].
+  apply spec_levels_shape. destruct Hv as (_ & _ & Hst & _). exact Hst.
+Qed.
+Print Assumptions C01_step.
+
+(* A once profile releases all its operations at its start instant and finishes there. *)
+Theorem C01_once : forall n, valid (POnce n) ->
+  drain (POnce n) = Some {| d_left := n; d_tokens := repeat (Some 0) (Z.to_nat n); d_finish := 0 |}.
+Proof. exact once_drain. Qed.
+Print Assumptions C01_once.
+
 (* non-vacuity: the profile of the defect report (0 -> 10 rps over 1.5 s) is valid, has 7
    operations, the last at 1 341 640 786 ns *)
 Example C01_example_line :
@@ -77,3 +104,10 @@ Proof. split; [repeat split; easy|split; vm_compute; reflexivity]. Qed.
 Example C01_example_decreasing :
   count (PLine (10 # 1) 0 500000000) = 2 /\ at_ (PLine (10 # 1) 0 500000000) 1 = Some 112701665.
 Proof. split; vm_compute; reflexivity. Qed.
+
+Example C01_example_step :
+  valid (PStep (1 # 1) (5 # 1) 2 1500000000) /\
+  spec_levels (1 # 1) (5 # 1) 2 = [1 + qz (0 * 2); 1 + qz (1 * 2); 1 + qz (2 * 2)]%Q /\
+  option_map d_tokens (drain (PStep (1 # 1) (2 # 1) 1 1500000000)) =
+    Some [Some 0; Some 1500000000; Some 2000000000; Some 2500000000].
+Proof. split; [repeat split; easy|split; vm_compute; reflexivity]. Qed.
